@@ -36,6 +36,14 @@ DESIGNS = {
     "plane6": [[0.0, 0.0], [1.0, 2.0], [2.0, 1.0], [0.5, 2.5], [2.5, 0.5], [1.5, 1.5]],
 }
 BINNERS = ["tree1", "tree2", "tree3", "bins", "kb2", "kb3"]
+# many feature columns (the discretizer's one-hot signature of a row then has dozens of positions); rows differ in the first
+# two columns, in the last two, or everywhere
+WIDE = {
+    "wide13": [[float(i % 4), float(i // 4)] + [((i * 7 + j * 3) % 5) / 4.0 for j in range(11)] for i in range(16)],
+    "wide20": [[((i * 3 + j) % 5) / 4.0 for j in range(18)] + [float(i // 4), float(i % 4)] for i in range(16)],
+    "wide64": [[float((i >> (j % 4)) & 1) + 0.25 * ((i + j) % 3) for j in range(64)] for i in range(16)],
+}
+DESIGNS_ALL = dict(DESIGNS, **WIDE)
 
 
 def cases(tier, seed):
@@ -58,6 +66,11 @@ def cases(tier, seed):
                     if dname == "dup6" and (j + seed) % 4:
                         continue
                 yield {"kind": "partition", "design": dname, "ys": [list(v) for v in vecs[i:i + ch]], "est": est, "binners": binners}
+    for dname in WIDE:
+        for est in ("reg", "clf"):
+            ys_w = [[(i * 5 + 1) % 3 if (i * 5 + 1) % 3 < 2 else 3 for i in range(16)], [(0, 1, 3)[(i // 4 + i) % 3] for i in range(16)]]
+            for bn in ("bins", "kb2", "tree3"):
+                yield {"kind": "partition", "design": dname, "ys": ys_w[:1] if bn != "bins" else ys_w, "est": est, "binners": [bn]}
     b = bounds(tier)["schedule_bound"]
     for op in ("fit", "predict", "predict_proba"):
         for W in (2, 3):
@@ -158,10 +171,13 @@ def _partition(case, bad):
 
     warnings.simplefilter("ignore")
     RecReg, RecClf, wmean = _rec_classes()
-    X = numpy.array(DESIGNS[case["design"]], dtype=numpy.float64)
+    X = numpy.array(DESIGNS_ALL[case["design"]], dtype=numpy.float64)
     n, d = X.shape
     lo, hi = X.min(axis=0), X.max(axis=0)
-    grid = numpy.array(list(itertools.product(*[numpy.linspace(lo[j] - 0.5, hi[j] + 0.5, 5) for j in range(d)])))
+    if d <= 3:
+        grid = numpy.array(list(itertools.product(*[numpy.linspace(lo[j] - 0.5, hi[j] + 0.5, 5) for j in range(d)])))
+    else:
+        grid = numpy.vstack([X + 0.1, X * 0.9 - 0.05, X[::-1] * 0.5 + 0.5 * X, [lo - 0.5], [hi + 0.5]])
     P = numpy.vstack([X, grid])
     clf = case["est"] == "clf"
     cnt = ntriv = 0
